@@ -109,6 +109,7 @@ def H_plain(ctx, cfg):
         _eq(ctx, acc.fetch_file("info"), local.fetch_file("info"), "info-over-http-equals-local")
         for cc in CHUNKS:
             _eq(ctx, acc.fetch_chunk("k0", cc), local.fetch_chunk("k0", cc), "chunk-over-http-equals-local")
+            _eq(ctx, acc.fetch_file("info"), local.fetch_file("info"), "info-after-chunk-reads-equals-local")
         ctx.prove(acc.file_exists("info") is True and acc.file_exists("nothing") is False, "file_exists-matches-local")
         try:
             acc.fetch_chunk("k0", (2, 4, 2, 3, 0, 1))
@@ -217,6 +218,8 @@ def H_sharded(ctx, cfg):
             _eq(ctx, got, want, "chunk-over-http-equals-local")
             if cc in payloads:
                 _eq(ctx, got, payloads[cc], "chunk-over-http-equals-stored-payload")
+            # whole-file reads interleaved with chunk reads on the same accessor
+            _eq(ctx, acc.fetch_file("info"), json.dumps(info).encode(), "info-after-chunk-reads-equals-local")
     ctx.sample(dict(grid=cfg["grid"], bits=[cfg["m"], cfg["s"], cfg["p"]], legacy=cfg["legacy"], requests=server.requests))
 
 
@@ -501,6 +504,11 @@ def replay(cfg, cex):
                         return True, f"chunk {cc} readable locally but over HTTP: {type(e).__name__}: {e}"
                     if got != pl:
                         return True, f"chunk {cc}: HTTP returned {got!r}, stored {pl!r}"
+                    with open(os.path.join(ds, "info"), "rb") as f:
+                        want_info = f.read()
+                    got_info = a.fetch_file("info")
+                    if got_info != want_info:
+                        return True, f"info read after chunk {cc} differs from the local file: got {got_info[:40]!r} ({len(got_info)} bytes), expected {len(want_info)} bytes"
                 return False, "HTTP reads equal local reads"
             cc, r, kind = inp["case"]
             cc = tuple(cc)
